@@ -97,7 +97,8 @@ def find_bind(func):
 
 
 class FuncEffects:
-    def __init__(self, repo, rel, qual, func, table_like_params=()):
+    def __init__(self, repo, rel, qual, func, table_like_params=(),
+                 seed_roots=None, depth=0):
         bind = find_bind(func) if 'inplace' in param_names(func) else None
         self.bind = bind[0] if bind else None
         self.bind_node = bind[1] if bind else None
@@ -112,6 +113,9 @@ class FuncEffects:
         self.kernel_calls = []       # dict(node, kernel, table, roots)
         self.method_calls = []       # dict(node, table, method, inplace)
         self.table_like = set(table_like_params)
+        self.depth = depth
+        for k_, v_ in (seed_roots or {}).items():
+            self.roots[k_] = set(v_)
         self._analyse()
 
     # ---- aliasing -----------------------------------------------------
@@ -524,6 +528,7 @@ class FuncEffects:
                         self.method_calls.append({
                             'node': n, 'table': tb, 'method': attr,
                             'inplace': kwarg(n, 'inplace')})
+            self._helper_effects(n, name)
             # functions mutating their first argument
             if name.endswith('.shuffle') and n.args:
                 for k, tb, f in self.root_of(n.args[0]):
@@ -531,6 +536,62 @@ class FuncEffects:
                         self.writes.append({'node': n, 'table': tb,
                                             'field': f, 'kind': 'observable',
                                             'how': 'shuffle'})
+
+
+    def _helper_effects(self, n, name):
+        """A private helper that is handed an array of a table's state and
+        changes it in place changes the table: the helper is analysed with
+        its parameters bound to the caller's roots (depth <= 2)."""
+        if self.depth >= 2:
+            return
+        callee = None
+        if isinstance(n.func, ast.Attribute) and isinstance(
+                n.func.value, ast.Name) and n.func.value.id in (
+                'self', 'cls') and n.func.attr.startswith('_') and \
+                not n.func.attr.startswith('__'):
+            q = 'Table.%s' % n.func.attr
+            if self.rel == TABLE and self.repo.has_func(TABLE, q):
+                callee = (TABLE, q, self.repo.func(TABLE, q))
+        elif isinstance(n.func, ast.Name) and n.func.id.startswith('_') \
+                and n.func.id not in KERNELS and \
+                self.repo.has_func(self.rel, n.func.id):
+            callee = (self.rel, n.func.id,
+                      self.repo.func(self.rel, n.func.id))
+        if callee is None:
+            return
+        rel, q, fn = callee
+        if isinstance(fn, ast.Lambda) or fn is self.func:
+            return
+        params = [p_ for p_ in param_names(fn) if p_ not in ('self', 'cls')]
+        seeds = {}
+        for p_, a_ in zip(params, n.args):
+            if isinstance(a_, ast.Starred):
+                break
+            r = {x for x in self.root_of(a_) if x[0] == 'array'}
+            if r:
+                seeds[p_] = r
+        for kw in n.keywords:
+            if kw.arg in params:
+                r = {x for x in self.root_of(kw.value) if x[0] == 'array'}
+                if r:
+                    seeds[kw.arg] = r
+        if not seeds:
+            return
+        wanted = set()
+        for r in seeds.values():
+            wanted |= {(t, f) for k, t, f in r}
+        try:
+            sub = FuncEffects(self.repo, rel, q, fn, seed_roots=seeds,
+                              depth=self.depth + 1)
+        except Exception:
+            return
+        for w in sub.writes:
+            if (w['table'], w['field']) in wanted and \
+                    w['kind'] == 'observable':
+                self.writes.append({
+                    'node': n, 'table': w['table'], 'field': w['field'],
+                    'kind': 'observable',
+                    'how': '%s: %s' % (q.split('.')[-1], w['how'])})
 
 
 class Effects:
